@@ -48,6 +48,12 @@ var masks = []gostatsd.TimerSubtypes{
 	{},
 	{Lower: true, LowerPct: true, Upper: true, UpperPct: true, Count: true, CountPct: true, CountPerSecond: true, Mean: true, MeanPct: true, Median: true, StdDev: true, Sum: true, SumPct: true, SumSquares: true, SumSquaresPct: true},
 	{Lower: true, UpperPct: true, CountPct: true, Mean: true, Median: true, SumPct: true, SumSquares: true},
+	// every base aggregation off, the percentile ones on: a timer without percentiles then has nothing to report
+	{Lower: true, Upper: true, Count: true, CountPerSecond: true, Mean: true, Median: true, StdDev: true, Sum: true, SumSquares: true},
+	// the reverse
+	{LowerPct: true, UpperPct: true, CountPct: true, MeanPct: true, SumPct: true, SumSquaresPct: true},
+	// one survivor
+	{Lower: true, LowerPct: true, Upper: true, UpperPct: true, Count: true, CountPct: true, CountPerSecond: true, Mean: true, MeanPct: true, StdDev: true, Sum: true, SumPct: true, SumSquares: true, SumSquaresPct: true},
 }
 
 var (
